@@ -102,6 +102,9 @@ type Sess struct {
 	kept       *keptDump
 	stale      []ecs.CachedFilter // handles of filters that were unregistered
 	replica    map[ecs.Entity]*replicaEnt
+	gmaps      map[string]gMap      // long-lived generic MapN mappers (C18)
+	gex        [2]*gexState         // long-lived generic Exchange objects (C18)
+	gsingles   map[string]*gSingle  // long-lived generic Map[T] mappers (C18)
 	resMappers map[string][]resAcc // long-lived generic.Resource mappers (C20)
 	Res        *ResModel
 	ResIDs     []ecs.ResID
@@ -621,6 +624,9 @@ func (s *Sess) call(op *Op, out *Outcome) {
 	case "QueryCheck":
 		f, spec := s.filterOf(op)
 		s.QueryCheck(f, spec, op.Trav)
+		if op.Slot != nil && op.Trav%3 == 1 && !s.Failed() {
+			s.queryAcrossCacheOps(*op.Slot, f, spec, op.Trav)
+		}
 	case "GC":
 		runtime.GC()
 	case "SetListener":
